@@ -60,7 +60,20 @@ func genSessionOps(rng *rand.Rand, c *Case, timeout, ooo int64, keys []string, l
 		nextID++
 		return op
 	}
+	manual := rng.Intn(5) == 0 // cases with manual flushes (TriggerWindow) between the Adds
+	if manual {
+		c.Stat = append(c.Stat, "manual-trigger")
+	}
 	for i := 0; i < n; i++ {
+		if manual && rng.Intn(6) == 0 {
+			// flush while sessions are open, then more rows of the same keys close by: they start fresh sessions
+			c.Ops = append(c.Ops, []string{"trigger"})
+			for j := 0; j < 2+rng.Intn(2); j++ {
+				clock += rng.Int63n(timeout/2 + 1)
+				c.Ops = append(c.Ops, addOp(itoa(clock)))
+			}
+			continue
+		}
 		switch r := rng.Intn(100); {
 		case r < 64:
 			c.Ops = append(c.Ops, addOp(itoa(mkTs())))
